@@ -83,10 +83,17 @@ func (pc ParseContext) ParseExploreRange(n datamodel.Node) (Selector, error) {
 		selector,
 		startValue,
 		endValue,
-		make([]datamodel.PathSegment, 0, endValue-startValue),
+		nil,
 	}
-	for i := startValue; i < endValue; i++ {
-		x.interest = append(x.interest, datamodel.PathSegmentOfInt(i))
+	// Only list the indices explicitly when the span is small. A huge span (the
+	// bounds come from untrusted selector documents) is not materialised: with
+	// no explicit interests the walk iterates the list and Explore filters by range.
+	const maxExplicitSpan = 1 << 16
+	if span := uint64(endValue) - uint64(startValue); span <= maxExplicitSpan {
+		x.interest = make([]datamodel.PathSegment, 0, span)
+		for i := startValue; i < endValue; i++ {
+			x.interest = append(x.interest, datamodel.PathSegmentOfInt(i))
+		}
 	}
 	return x, nil
 }
